@@ -103,7 +103,7 @@ Record st := mkst {
 (* ------------------------------------------------------------------ oracles *)
 Variable isinf : T -> bool.
 Variable f : nat -> rows -> option (list T).        (* objective: call number, batch *)
-Variable cb : option (nat -> bool).                 (* callback: sweep number -> "returned True" *)
+Variable cb : option (nat -> bool).                 (* callback: sweep number -> truthiness of its answer (`if cb(...)`) *)
 Variable pones : P.                                 (* np.ones((1, 1)) *)
 Variable pdotL : P -> P -> P.                       (* np.tensordot(R, G, 1) *)
 Variable pdotR : P -> P -> P.                       (* np.tensordot(G, R, 1) *)
